@@ -182,8 +182,15 @@ impl FfiChannel {
         C: FnOnce(Result<BitIterator, RequestError>) + Send + Sync + 'static,
         W: Fn(ReadBits) -> RequestDetails,
     {
-        let range = range.of_read_bits()?;
-        let promise = crate::client::requests::read_bits::Promise::new(callback);
+        // create the promise first: a refused call must still complete its callback, with the reason
+        let mut promise = crate::client::requests::read_bits::Promise::new(callback);
+        let range = match range.of_read_bits() {
+            Ok(range) => range,
+            Err(err) => {
+                promise.failure(err.into());
+                return Err(err.into());
+            }
+        };
         self.send(crate::client::channel::wrap(
             param,
             wrap_req(ReadBits::new(range, promise)),
@@ -201,8 +208,14 @@ impl FfiChannel {
         C: FnOnce(Result<RegisterIterator, RequestError>) + Send + Sync + 'static,
         W: Fn(ReadRegisters) -> RequestDetails,
     {
-        let promise = crate::client::requests::read_registers::Promise::new(callback);
-        let range = range.of_read_registers()?;
+        let mut promise = crate::client::requests::read_registers::Promise::new(callback);
+        let range = match range.of_read_registers() {
+            Ok(range) => range,
+            Err(err) => {
+                promise.failure(err.into());
+                return Err(err.into());
+            }
+        };
         self.send(crate::client::channel::wrap(
             param,
             wrap_req(ReadRegisters::new(range, promise)),
